@@ -21,9 +21,11 @@ type vhKV struct {
 // values 1 byte, batch entries are puts.
 var vhSmall bool
 
+var vhLen2 bool
+
 func vhTKey(name string) []byte {
 	lo := 1
-	if vhSmall && name == "b.key" {
+	if vhSmall && (name == "b.key" || vhLen2) {
 		lo = 2
 	}
 	n := vfChoose(name+".len", lo, 2)
@@ -38,9 +40,11 @@ func vhTKey(name string) []byte {
 	return k
 }
 
+var vhEmptyVals bool
+
 func vhTVal(name string) []byte {
 	lo := 0
-	if vhSmall {
+	if vhSmall && !vhEmptyVals {
 		lo = 1
 	}
 	n := vfChoose(name+".len", lo, 1)
@@ -108,6 +112,8 @@ func vhTrieRun(nops int, allowBatch, allowFlush bool) { vhTrieOps(nops, "", allo
 func vhTrieOps(nops int, kinds string, allowBatch, allowFlush bool) {
 	if kinds == "" {
 		vhSmall = false
+		vhEmptyVals = false
+		vhLen2 = false
 	}
 	st := storage.NewMemCachedStore(storage.NewMemoryStore())
 	t := NewTrie(nil, ModeAll, st)
@@ -217,4 +223,68 @@ func VF_C10_batch_then_put() { vhSmall = true; vhTrieOps(2, "bp", true, false) }
 //vf:unwind 64
 //vf:hash uf+injective
 //vf:bound (nibble alphabet {0,1}) a Put of a 1..2-byte key followed by a batch putting 2 keys of 2 bytes, no flush
-func VF_C10_put_then_batch() { vhSmall = true; vhTrieOps(2, "pb", true, false) }
+func VF_C10_put_then_batch() { vhSmall = true; vhEmptyVals = true; vhTrieOps(2, "pb", true, false) }
+
+//vf:tier quick
+//vf:unwind 64
+//vf:hash uf+injective
+//vf:bound (nibble alphabet {0,1}) Put, Put, Delete over keys of 1..2 bytes with 1-byte values, no flush (restructuring of branches left with one child)
+func VF_C10_put_put_delete() { vhSmall = true; vhTrieOps(3, "ppd", false, false) }
+
+//vf:tier quick
+//vf:unwind 64
+//vf:hash uf+injective
+//vf:bound (nibble alphabet {0,1}) three Puts then a Delete over 2-byte keys, no flush (deleting below a surviving in-memory extension/branch)
+func VF_C10_put3_delete() { vhSmall = true; vhLen2 = true; vhTrieOps(4, "pppd", false, false) }
+
+//vf:tier quick
+//vf:unwind 64
+//vf:hash uf+injective
+//vf:bound (nibble alphabet {0,1}) trie of 2 (quick) / 3 (thorough) keys of 1..2 bytes with distinct concrete values, flushed; Find with prefix of 0..1 bytes, start point of 0..2 symbolic bytes, at most 1..3 results, compared with the sorted content
+func VF_C10_find_matches_content() {
+	vhSmall = true
+	st := storage.NewMemCachedStore(storage.NewMemoryStore())
+	t := NewTrie(nil, ModeAll, st)
+	c := &vhContent{}
+	n := 2 + vfTier()
+	for i := 0; i < n; i++ {
+		k, v := vhTKey("put.key"), []byte{byte(i + 1)}
+		vfAssert(t.Put(k, v) == nil, "Put-ok")
+		c.set(k, v)
+	}
+	t.Flush(0)
+	prefix := vfBytes("prefix", vfChoose("prefix.len", 0, 1))
+	var from []byte
+	if fl := vfChoose("from.len", 0, 2); fl > 0 {
+		from = vfBytes("from", fl)
+	}
+	max := vfChoose("max", 1, 3)
+	got, err := t.Find(prefix, from, max)
+	var want [][]byte
+	for _, i := range c.sorted() {
+		k := c.keys[i]
+		if !bytes.HasPrefix(k, prefix) {
+			continue
+		}
+		if from != nil && bytes.Compare(k[len(prefix):], from) <= 0 {
+			continue
+		}
+		want = append(want, k)
+	}
+	if len(want) > max {
+		want = want[:max]
+	}
+	if err != nil {
+		// the only acceptable error: no node at all under the prefix
+		vfAssert(len(want) == 0, "Find-error-only-when-nothing-matches")
+		return
+	}
+	vfAssert(len(got) == len(want), "Find-count")
+	for i := range got {
+		if i < len(want) {
+			vfAssert(bytes.Equal(got[i].Key, want[i]), "Find-keys-in-order")
+			v, _ := c.get(want[i])
+			vfAssert(bytes.Equal(got[i].Value, v), "Find-values")
+		}
+	}
+}
